@@ -559,6 +559,99 @@ def _history_run(prog, make, mode, preset):
     return ip, {'res': res, 'obj': o}
 
 
+def _instance_models(prog):
+    """(qualname, parameter names, constructor(ip, {param: Num}), opaque?) for the two-instance history rule"""
+    def mk(qual):
+        return lambda ip, kw: ip.construct(prog.cls(qual), [], dict(kw))
+    return [
+        (OM + 'Gaussian::Gaussian', {'sigma': False, 'length': True}, mk(OM + 'Gaussian::Gaussian'), False),
+        (OM + 'FreelyJointedChain::FreelyJointedChain', {'l': False, 'length': True}, mk(OM + 'FreelyJointedChain::FreelyJointedChain'), False),
+        (OM + 'GaussianRing::GaussianRing', {'sigma': False}, lambda ip, kw: ip.construct(
+            prog.cls(OM + 'GaussianRing::GaussianRing'), [], dict(kw, length=const_num(5))), False),
+        (OM + 'NonOverlappingFreelyJointedChain::NonOverlappingFreelyJointedChain', {'l': False},
+         lambda ip, kw: ip.construct(prog.cls(OM + 'NonOverlappingFreelyJointedChain::NonOverlappingFreelyJointedChain'), [],
+                                     dict(kw, length=Num(N.isym('N')))), False),
+        # DiscreteKoyama: the real constructor and the real kernel, with arithmetic kept uninterpreted (the moment formulas
+        # are far too large to normalise on every run; equality of two evaluations only needs "same operations on the same
+        # inputs"), chain length 3 so that both separations n = 1, 2 are evaluated
+        (KOY, {'sigma': False, 'l': False, 'lp': False},
+         lambda ip, kw: ip.construct(prog.cls(KOY), [], dict(kw, length=const_num(3))), True),
+    ]
+
+
+def _instances_run(prog, make, params, varied, opaque, preset):
+    """evaluate an instance X, then an instance Y that differs from X in the parameter `varied` only (None: Y alone);
+    returns Y's omega(k)"""
+    ip = _ip(prog)
+    ip.preset = list(preset)
+    ip.opaque_arith = opaque
+    ip.declare('k1', 'curve')
+
+    def kw(tag):
+        return {p: Num(ip.declare(p + tag, integer=integer)) for p, integer in params.items()}
+    ky = kw('')
+    if varied is not None:
+        kx = dict(ky)
+        kx[varied] = Num(ip.declare(varied + '_other', integer=params[varied]))
+        x = make(ip, kx)
+        ip.call(ip.find_method(x, 'calculate'), [Arr(N.sym('k'), 'k_other_instance', ip)], {})
+    y = make(ip, ky)
+    y.origin = 'self'
+    res = ip.call(ip.find_method(y, 'calculate'), [Arr(N.sym('k'), 'k', ip)], {})
+    return ip, {'res': res}
+
+
+def rule_instances(ctx, rule='R11.i'):
+    """omega(k) of a model object is a function of its own parameters: evaluated after another instance of the same class
+    that differs in exactly one constructor parameter (for each parameter in turn) was evaluated on the same grid in the
+    same process, it returns what it returns alone.  Catches state kept at class or module level (memo tables with an
+    incomplete key, shared buffers).  Symbolic dictionary keys are compared as canonical terms."""
+    n = 0
+    for qual, params, make, opaque in _instance_models(ctx.prog):
+        cls = ctx.prog.cls(qual)
+        m = cls.find_method('calculate')
+        bad, und, runs = [], [], 0
+        try:
+            fresh = explore(lambda preset: _instances_run(ctx.prog, make, params, None, opaque, preset))
+            ref = {}
+            for dec, ip, r in fresh:
+                ref[tuple((c.key(), b) for c, b, _ in dec)] = _term(ip, r['res'])
+        except (Unsupported, Raised, ValueError) as e:
+            ctx.undecided(rule, qual, 'instance alone: %s' % e, m.loc())
+            continue
+        for varied in sorted(params):
+            try:
+                worlds = explore(lambda preset: _instances_run(ctx.prog, make, params, varied, opaque, preset), limit=256)
+            except (Unsupported, Raised) as e:
+                und.append('other instance differs in %s: %s' % (varied, e))
+                continue
+            for dec, ip, r in worlds:
+                runs += 1
+                # the decisions that concern Y alone select the reference path
+                own = tuple((c.key(), b) for c, b, _ in dec if (c.key(), b) in {kk for key in ref for kk in key})
+                cands = [t for key, t in ref.items() if set(key) <= set((c.key(), b) for c, b, _ in dec)]
+                try:
+                    t = _term(ip, r['res'])
+                except Unsupported as e:
+                    und.append('other instance differs in %s: %s' % (varied, e))
+                    continue
+                if not cands:
+                    und.append('other instance differs in %s: no matching path of the instance alone' % varied)
+                elif not any(t.equals(c) for c in cands):
+                    bad.append('after an instance that differs only in %s was evaluated, omega(k) is %s where the instance alone '
+                               'gives %s' % (varied, N.show_opaque(t)[:200], N.show_opaque(cands[0])[:200]))
+        if bad:
+            n += 1
+            ctx.violation(rule, qual, 'other-instance', '; '.join(bad[:2]), m.loc())
+        elif und:
+            ctx.undecided(rule, qual, '; '.join(und[:2]), m.loc())
+        else:
+            n += 1
+            ctx.holds(rule, qual, 'evaluating another instance first (one differing parameter at a time: %s) does not change omega(k) '
+                      '(%d paths%s)' % (', '.join(sorted(params)), runs, ', uninterpreted arithmetic' if opaque else ''), m.loc())
+    ctx.floor(rule, n, 5, 'omega models with a two-instance independence check')
+
+
 def _assumed_equalities(decisions):
     """substitution implied by array_equal(x,y) / allclose(x,y) conditions that the path assumed true (plain symbols)"""
     import re
@@ -573,6 +666,30 @@ def _assumed_equalities(decisions):
                     a_, b_ = b_, a_
                 m[a_] = N.sym(b_)
     return m
+
+
+REDUCTIONS = ('max', 'min', 'sum', 'mean', 'ptp', 'median', 'any', 'all')
+
+
+def _whole_array_atoms(res):
+    """reductions over the whole k array (max(k), sum(k), ...) that the returned value -- or a condition it is piecewise
+    on -- depends on"""
+    out = set()
+    t = getattr(res, 't', None)
+    if t is None:
+        return []
+
+    def scan(nf):
+        for a in nf.all_atoms():
+            if a[0] == 'fn' and a[1] in REDUCTIONS and 'k' in N.nf_from_key(a[2]).symbols():
+                out.add(N.show_atom(a)[:60])
+    for leaf in P.leaves(t):
+        scan(leaf)
+    ps, fs = P.conds(t)
+    for p_ in ps:
+        for key in p_:
+            scan(N.nf_from_key(key))
+    return sorted(out)
 
 
 def _whole_array_branches(worlds):
@@ -599,6 +716,13 @@ def rule_history(ctx, rule='R11.h'):
         m = cls.find_method('calculate')
         try:
             (_, ipf, rf), = explore(lambda preset: _history_run(ctx.prog, make, 'fresh', preset))[:1]
+            red = _whole_array_atoms(rf['res'])
+            if red:
+                n += 1
+                ctx.violation('R11.e', qual, 'whole-array-dependence',
+                              'the returned array depends on a reduction over the whole k array (%s): the value at one k depends on '
+                              'which other k are in the array' % '; '.join(red[:3]), m.loc())
+                continue
             tf = _term(ipf, rf['res'])
         except (Unsupported, Raised, ValueError) as e:
             ctx.undecided(rule, qual, 'fresh evaluation: %s' % e, m.loc())
